@@ -171,8 +171,7 @@ Section Render.
       (* relate the run on (b :: b2 :: rest) to the run on (b2 :: rest) *)
       cbn [expand_aux]. rewrite Hopen.
       destruct (strstr (b2 :: rest) [PCT; LBR]) as [i|] eqn:Es; cbn [option_map].
-      + rewrite !flat_append_None. cbn [flat map concat snd app firstn skipn].
-        rewrite <- ?app_assoc. cbn [app]. f_equal. f_equal.
+      + cbn [skipn firstn].
         destruct (strstr (skipn i (b2 :: rest)) (tag_close c)) as [j|].
         * destruct (split_colon c _) as [name arg].
           destruct (negb (known name)).
